@@ -23,10 +23,13 @@ def parseOp (t : String) : Option Op :=
   | ["ego", v] => (nat? v).map Op.ego
   | ["cbfA", o, k] => do some (Op.cbfArrive (← nat? o) (← nat? k))
   | ["sn", o] => (nat? o).map Op.sn
-  | ["gbcRx", o, k] => do some (Op.gbcRx (← nat? o) (← nat? k))
+  | ["gbcRx", o, k] => do some (Op.gbcRx (← nat? o) (← nat? k) false)
+  | ["gbcRxD", o, k] => do some (Op.gbcRx (← nat? o) (← nat? k) true)
   | ["cbfF", o, k, src] => do some (Op.cbfFire (← nat? o) (← nat? k) (← nat? src))
-  | ["guc", o, r, d] => do some (Op.guc (← nat? o) (← nat? r) (← nat? d))
-  | ["lsR", o, d, n] => do some (Op.lsReply (← nat? o) (← nat? d) (← nat? n))
+  | ["guc", o, r, d] => do some (Op.guc (← nat? o) (← nat? r) (← nat? d) true)
+  | ["gucOld", o, r, d] => do some (Op.guc (← nat? o) (← nat? r) (← nat? d) false)
+  | ["lsR", o, d, n] => do some (Op.lsReply (← nat? o) (← nat? d) (← nat? n) true)
+  | ["lsROld", o, d, n] => do some (Op.lsReply (← nat? o) (← nat? d) (← nat? n) false)
   | ["lsF", o, d, src, mr] => do some (Op.lsFire (← nat? o) (← nat? d) (← nat? src) (← nat? mr))
   | ["purge", d] => (nat? d).map Op.purge
   | _ => none
@@ -40,14 +43,14 @@ def parseThreads (ts : List String) : Option (List (List Op)) :=
   (splitThreads ts).mapM (fun th => th.mapM parseOp)
 
 def opKeys : Op → List Nat
-  | .cbfArrive _ k => [k] | .cbfFire _ k _ => [k] | .gbcRx _ k => [k] | _ => []
+  | .cbfArrive _ k => [k] | .cbfFire _ k _ => [k] | .gbcRx _ k _ => [k] | _ => []
 def opDests : Op → List Nat
-  | .guc _ _ d => [d] | .lsReply _ d _ => [d] | .lsFire _ d _ _ => [d] | .purge d => [d] | _ => []
+  | .guc _ _ d _ => [d] | .lsReply _ d _ _ => [d] | .lsFire _ d _ _ => [d] | .purge d => [d] | _ => []
 def opReqs : Op → List Nat
-  | .guc _ r _ => [r] | _ => []
+  | .guc _ r _ _ => [r] | _ => []
 def opIds : Op → List Nat
-  | .sn o => [o] | .shb o => [o] | .gbc o => [o] | .cbfArrive o _ => [o] | .gbcRx o _ => [o] | .cbfFire o _ _ => [o]
-  | .guc o _ _ => [o] | .lsReply o _ _ => [o] | .lsFire o _ _ _ => [o] | _ => []
+  | .sn o => [o] | .shb o => [o] | .gbc o => [o] | .cbfArrive o _ => [o] | .gbcRx o _ _ => [o] | .cbfFire o _ _ => [o]
+  | .guc o _ _ _ => [o] | .lsReply o _ n _ => o :: (List.range n).map (fun k => 1000 * (k + 1) + o) | .lsFire o _ _ _ => [o] | _ => []
 
 def natsStr (xs : List Nat) : String := ",".intercalate (xs.map toString)
 
@@ -68,7 +71,7 @@ def obs (keys dests reqs : List Nat) (s : St) : String :=
 
 /-- everything the future can depend on (memo key together with the program counters) -/
 def fullKey (keys dests reqs ids : List Nat) (s : St) : String :=
-  let regs := ";".intercalate (ids.map (fun o => natsStr ((List.range 10).map (s.reg o)) ++ "/" ++ natsStr (s.regL o) ++ "/" ++
+  let regs := ";".intercalate (ids.map (fun o => natsStr ((List.range 12).map (s.reg o)) ++ "/" ++ natsStr (s.regL o) ++ "/" ++
     (if s.tStarted o then "s" else "") ++ (if s.tCancelled o then "c" else "")))
   let perD := ";".intercalate (dests.map (fun d => s!"{if s.loct d then 1 else 0}/{natsStr (s.lsFlight d)}/{match s.lsTimer d with | some t => toString t | none => "-"}"))
   let perK := ";".intercalate (keys.map (fun k => s!"{s.cbfTok k}/{s.cbfPend k}/{if s.dpl k then 1 else 0}"))
